@@ -13,6 +13,7 @@ PID = "C06"
 # located diagnostic through every name until it is reset, declarations made in between do not un-flag it, and a qubit nobody
 # measured is never refused. (program, line of the statement that must be refused or 0 = must run to completion)
 SECOND = "function second(qubit[] r) -> qubit { return r[1]; }\nfunction poke(qubit p) -> void { h(p); }\nclass Q { public qubit q; public constructor() -> Q = default; }\n"
+STATICQ = "static class Reg { public static qubit anc; public static qubit[2] pair; }\n"
 ALIAS_PROBES = [
     ("measured, named twice, gate", SECOND + "function main() -> void {\n qubit a;\n measure a;\n qubit b = a;\n h(a);\n}\n", 8),
     ("measured, named twice, later declaration, gate", SECOND + "function main() -> void {\n qubit a;\n measure a;\n qubit b = a;\n qubit c;\n h(a);\n}\n", 9),
@@ -21,6 +22,11 @@ ALIAS_PROBES = [
     ("measured, named twice, later object, gate through a parameter", SECOND + "function main() -> void {\n qubit a;\n measure a;\n qubit b = a;\n Q o = new Q();\n poke(a);\n}\n", -2),
     ("measured, named twice, measured again", SECOND + "function main() -> void {\n qubit a;\n measure a;\n qubit b = a;\n qubit c;\n measure a;\n}\n", 9),
     ("never measured, named twice, others measured", SECOND + "function main() -> void {\n qubit a;\n qubit b = a;\n qubit c;\n measure c;\n qubit d;\n measure d;\n h(a);\n measure a;\n}\n", 0),
+    # qubits that exist before main starts (static fields) next to qubits declared afterwards
+    ("static qubit untouched while a local is measured", STATICQ + "function main() -> void {\n qubit a;\n measure a;\n h(Reg.anc);\n measure Reg.anc;\n x(Reg.pair[1]);\n measure Reg.pair;\n}\n", 0),
+    ("measured static qubit, local reset in between", STATICQ + "function main() -> void {\n measure Reg.anc;\n qubit a;\n measure a;\n reset a;\n h(Reg.anc);\n}\n", 7),
+    ("measured static register element", STATICQ + "function main() -> void {\n qubit a;\n measure Reg.pair;\n h(a);\n x(Reg.pair[0]);\n}\n", 6),
+    ("static qubits only", STATICQ + "function main() -> void {\n h(Reg.anc);\n measure Reg.anc;\n reset Reg.anc;\n x(Reg.anc);\n measure Reg.anc;\n}\n", 0),
     ("reset between", SECOND + "function main() -> void {\n qubit a;\n measure a;\n qubit b = a;\n reset a;\n qubit c;\n h(a);\n measure a;\n}\n", 0),
 ]
 
